@@ -21,7 +21,7 @@
    (describeRequestsOnHold / readerAddRequestsOnHold: waiting for an on-demand source, answered by a later request, a
    timer or the path's termination); pathManager.close() is not in progress. *)
 From Coq Require Import List Arith Bool.
-Require Import MTX.Model.C40_Rendezvous MTX.Proofs.C40_Rendezvous MTX.Proofs.C40_Refuted.
+Require Import MTX.Model.C40_Rendezvous MTX.Proofs.C40_Rendezvous MTX.Proofs.C40_Refuted MTX.Check.C40 MTX.Proofs.C40_Check.
 Import ListNotations.
 
 (* progress: in every reachable state either nobody is inside an operation (quiescent), or some step other than an
@@ -72,6 +72,15 @@ Theorem C40_pctx_only_by_close : forall esc s l s' p,
   step esc s l = Some s' -> l <> LPmCloseHd -> p < np s -> pctx (paths s' p) = pctx (paths s p).
 Proof. exact pctx_frame. Qed.
 Print Assumptions C40_pctx_only_by_close.
+
+(* the correspondence check's test "the model claims that nothing can move here except processes held in a driver
+   hook" (Check.C40.settled, a finite list of candidate labels) is complete: if it accepts a reachable state, every
+   enabled internal step involves a frozen process; with nothing frozen, no internal step is enabled at all *)
+Theorem C40_check_settled_sound : forall s fr l s', reachable true s ->
+  settled s fr = true -> internal l = true -> step true s l = Some s' ->
+  exists q, In q (involves s l) /\ existsb (proc_eqb q) fr = true.
+Proof. intros s fr l s' HR. apply settled_sound. exact (inv_reachable true s HR). Qed.
+Print Assumptions C40_check_settled_sound.
 
 (* the escape branches are what the proof uses: without them this state is reachable — the path manager is in
    pa.wait() for path 0, path 0 is blocked in setPathReady sending to the path manager, the publisher waits for the
